@@ -19,8 +19,8 @@ import serial_common as sc
 
 def run(ck):
     harness, model = sc.build()
-    res = vv.prove("Properties_C11", set())
-    ck.add_proof(res)
+    ck.add_proof(vv.prove("Properties_C11", set()))
+    ck.add_proof(vv.prove("Refuted_C11", set()))
     ck.trusted += sc.TRUSTED
     ck.assumptions += sc.ASSUMPTIONS
 
